@@ -103,7 +103,7 @@ def corpus_cases(workdir):
     return cases
 
 
-def build(tier, seed, variant='', harness_args=('rows', 'extra'), n=None, maxops=None, gen_args=()):
+def build(tier, seed, variant='', harness_args=('rows', 'extra'), n=None, maxops=None, gen_args=(), idtag='', with_corpus=True):
     """returns dict(dir, cases, model, impl, stats); cached"""
     d = corpus_dir(tier, seed, variant)
     done = os.path.join(d, 'done.json')
@@ -123,7 +123,7 @@ def build(tier, seed, variant='', harness_args=('rows', 'extra'), n=None, maxops
         procs.append((subprocess.Popen([DRIVER, 'gen', str((n + gshards - 1) // gshards), str(seed * 1000 + s), str(maxops), gp] + list(gen_args),
                                        stdout=subprocess.PIPE, stderr=subprocess.STDOUT, text=True), gp, s))
     dist = {}
-    lines = corpus_cases(d)
+    lines = corpus_cases(d) if with_corpus else []
     ncorpus = len(lines)
     for p, gp, s in procs:
         out, _ = p.communicate(timeout=3000)
@@ -136,7 +136,7 @@ def build(tier, seed, variant='', harness_args=('rows', 'extra'), n=None, maxops
         for l in open(gp):
             if l.strip():
                 c = json.loads(l)
-                c['id'] = f"s{s}{c['id']}"
+                c['id'] = f"{idtag}s{s}{c['id']}"
                 lines.append(json.dumps(c))
     open(gen, 'w').write("\n".join(lines) + "\n")
     # model
